@@ -15,7 +15,9 @@ def _convert_expr(e, variables_dict):
         return variables_dict[e.id]
     else:
         operands = list(map(lambda x: _convert_expr(x, variables_dict), e.operands))
-        if e.op == Op.NEG:
+        if e.op == Op.BOOL_CONSTANT or e.op == Op.INT_CONSTANT:
+            return operands[0]
+        elif e.op == Op.NEG:
             return -operands[0]
         elif e.op == Op.ADD:
             ret = operands[0]
@@ -54,7 +56,12 @@ def _convert_expr(e, variables_dict):
         elif e.op == Op.IF:
             return z3.If(operands[0], operands[1], operands[2])
         elif e.op == Op.ALLDIFF:
+            if not any(z3.is_expr(x) for x in operands):
+                # z3.Distinct needs at least one z3 expression among its arguments
+                return len(set(operands)) == len(operands)
             return z3.Distinct(operands)
+        else:
+            raise ValueError("operator {} is not supported by the z3 backend".format(e.op))
 
 
 class Z3Backend(Backend):
